@@ -125,6 +125,8 @@ pub struct Src {
     pub stats: Rc<RefCell<SrcStats>>,
     pub fault: Rc<RefCell<Option<SrcFault>>>,
     pub fired: Rc<RefCell<bool>>,
+    /// answers every `read` from an explicit schedule (serve n / interrupted / fail tag)
+    pub rsched: Option<Rc<RefCell<std::collections::VecDeque<WResp>>>>,
     pub choppy: Option<Rc<RefCell<Rng>>>,
     /// 0 = short reads and interruptions, 1 = short reads only, 2 = interruptions only
     pub choppy_mode: u8,
@@ -139,6 +141,7 @@ impl Src {
             stats: Rc::new(RefCell::new(SrcStats { low, ..Default::default() })),
             fault: Rc::new(RefCell::new(None)),
             fired: Rc::new(RefCell::new(false)),
+            rsched: None,
             choppy: None,
             choppy_mode: 0,
         }
@@ -162,6 +165,16 @@ impl Read for Src {
         }
         let avail = (self.data.len() as u64).saturating_sub(self.pos) as usize;
         let mut n = buf.len().min(avail);
+        if n > 0 {
+            if let Some(q) = &self.rsched {
+                match q.borrow_mut().pop_front() {
+                    None => {}
+                    Some(WResp::Accept(m)) => n = m.min(n).max(1),
+                    Some(WResp::Interrupted) => return Err(io::Error::new(io::ErrorKind::Interrupted, "interrupted")),
+                    Some(WResp::Fail(tag)) => return Err(tagged_error(tag)),
+                }
+            }
+        }
         if n > 0 {
             if let Some(rng) = &self.choppy {
                 let mut r = rng.borrow_mut();
